@@ -2,3 +2,5 @@ import AITB.Model.Num
 import AITB.Model.Proto
 import AITB.Model.Factored
 import AITB.Props.C14
+import AITB.Model.Belief
+import AITB.Props.C05
